@@ -274,6 +274,17 @@ func runCrashSuite(seed uint64, n int, out *Out, stats *Stats) {
 				base = utxosBytes
 			}
 			tree := setAt(deepCopy(parseAny(base)), m.p, fk.val, fk.rm)
+			if m.target == "transaction-endpoint" {
+				// keep the request inside the admission window of the chain as it is now (blocks are
+				// produced between the mutations), unless the timestamp itself is what is being mutated
+				if top, ok := tree.(map[string]interface{}); ok {
+					if txo, ok := top["Transaction"].(map[string]interface{}); ok {
+						if _, isNum := txo["timestamp"].(json.Number); isNum && !(len(m.p) > 0 && fmt.Sprint(m.p[len(m.p)-1]) == "timestamp") {
+							txo["timestamp"] = json.Number(fmt.Sprint(v.Chain.LastBlockTimestamp()))
+						}
+					}
+				}
+			}
 			if r.Chance(4, 5) {
 				fixIds(tree)
 				if m.target == "sync-answer" {
